@@ -79,6 +79,22 @@ pub enum Op {
         src: u8,
         nodes: Vec<u16>,
         dst: u8,
+        /// keep repeated and nested referents in the list (each listed referent is cloned as a
+        /// root of its own; nothing in the documentation excludes such a list)
+        #[serde(default)]
+        overlap: bool,
+    },
+    /// A clone call that panics (a referent that does not exist) into a throw-away DOM that is not
+    /// part of the history, caught; the history's own DOMs must not notice.
+    FailedCloneElsewhere {
+        src: u8,
+        node: u16,
+    },
+    /// Walk `descendants()` / `descendants_of(node)` only part of the way and drop the iterator.
+    PartialWalk {
+        dom: u8,
+        node: u16,
+        steps: u8,
     },
     RawRoundTrip {
         dom: u8,
@@ -101,6 +117,8 @@ impl Op {
             Op::CloneWithin { .. } => "clone_within",
             Op::CloneIntoExternal { .. } => "clone_into_external",
             Op::CloneMulti { .. } => "clone_multiple_into_external",
+            Op::FailedCloneElsewhere { .. } => "failed_clone_elsewhere",
+            Op::PartialWalk { .. } => "partial_walk",
             Op::RawRoundTrip { .. } => "raw_round_trip",
             Op::LoadBinary { .. } => "load_binary",
             Op::LoadXml { .. } => "load_xml",
@@ -119,16 +137,58 @@ pub const NAMES: [&str; 5] = ["a", "b", "c", "d", "e"];
 pub const REF_PROPS: [&str; 3] = ["RefA", "RefB", "RefC"];
 
 pub fn uid_pool(i: u8) -> UniqueId {
-    UniqueId::new(7 + i as u32 % 4, 1000, 42 + (i as i64 % 4))
+    // four ids; two of them share a negative random part and differ only in index / time, so an
+    // equality that looks at less than all three components confuses them
+    match i % 4 {
+        0 => UniqueId::new(7, 1000, 42),
+        1 => UniqueId::new(8, 1000, -3),
+        2 => UniqueId::new(9, 1001, -3),
+        _ => UniqueId::new(10, 1000, 45),
+    }
+}
+
+/// A UniqueId compared and hashed by its three components - never through the library's own
+/// `==` / `Hash`, which are part of what is under test.
+#[derive(Clone, Copy, Debug)]
+pub struct Uk(pub UniqueId);
+
+impl Uk {
+    fn key(&self) -> (u32, u32, i64) {
+        (self.0.index(), self.0.time(), self.0.random())
+    }
+}
+
+impl PartialEq for Uk {
+    fn eq(&self, o: &Uk) -> bool {
+        self.key() == o.key()
+    }
+}
+
+impl Eq for Uk {}
+
+impl std::hash::Hash for Uk {
+    fn hash<H: std::hash::Hasher>(&self, h: &mut H) {
+        self.key().hash(h)
+    }
 }
 
 // ---------------------------------------------------------------------------
 // Model
 
-#[derive(Clone, Debug, PartialEq)]
+#[derive(Clone, Debug)]
 pub enum MVal {
     Ref(Ref),
     Uid(UniqueId),
+}
+
+impl PartialEq for MVal {
+    fn eq(&self, o: &MVal) -> bool {
+        match (self, o) {
+            (MVal::Ref(a), MVal::Ref(b)) => a == b,
+            (MVal::Uid(a), MVal::Uid(b)) => Uk(*a) == Uk(*b),
+            _ => false,
+        }
+    }
 }
 
 #[derive(Clone, Debug, PartialEq)]
@@ -204,11 +264,11 @@ impl MDom {
             b = p;
         }
     }
-    fn held_ids(&self) -> HashMap<UniqueId, usize> {
+    fn held_ids(&self) -> HashMap<Uk, usize> {
         let mut m = HashMap::new();
         for n in self.nodes.values() {
             if let Some(MVal::Uid(u)) = n.props.get("UniqueId") {
-                *m.entry(*u).or_default() += 1;
+                *m.entry(Uk(*u)).or_default() += 1;
             }
         }
         m
@@ -232,7 +292,7 @@ fn pick(sel: u16, len: usize) -> Option<usize> {
 pub struct World {
     pub real: Vec<WeakDom>,
     pub model: Vec<MDom>,
-    pub seen_ids: HashSet<UniqueId>,
+    pub seen_ids: HashSet<Uk>,
     pub all_refs_ever: HashSet<Ref>,
     /// DOM came out of the XML reader (open finding: its ids are not registered)
     pub from_xml: Vec<bool>,
@@ -316,7 +376,7 @@ impl World {
             init_error: None,
         };
         for i in 0..4 {
-            w.seen_ids.insert(uid_pool(i));
+            w.seen_ids.insert(Uk(uid_pool(i)));
         }
         for (di, tree) in h.doms.iter().enumerate() {
             // DOM roots never carry Refs to other DOMs at creation
@@ -519,7 +579,7 @@ impl World {
     /// DOM gave them against the rule, then adopt the actual values.
     /// `before`: ids held in the destination *before* the operation (by
     /// instances that are not incoming).
-    fn adopt_ids(&mut self, d: usize, incoming: &[Ref], before: &HashMap<UniqueId, usize>) -> R {
+    fn adopt_ids(&mut self, d: usize, incoming: &[Ref], before: &HashMap<Uk, usize>) -> R {
         let res = self.adopt_ids_inner(d, incoming, before);
         self.taint(d, res)
     }
@@ -536,7 +596,7 @@ impl World {
         }
     }
 
-    fn adopt_ids_inner(&mut self, d: usize, incoming: &[Ref], before: &HashMap<UniqueId, usize>) -> R {
+    fn adopt_ids_inner(&mut self, d: usize, incoming: &[Ref], before: &HashMap<Uk, usize>) -> R {
         // group incomers by the id they arrived with
         let mut groups: BTreeMap<(u32, u32, i64), Vec<Ref>> = BTreeMap::new();
         for r in incoming {
@@ -547,10 +607,10 @@ impl World {
                     .push(*r);
             }
         }
-        let mut fresh_now: HashSet<UniqueId> = HashSet::new();
+        let mut fresh_now: HashSet<Uk> = HashSet::new();
         for ((i, t, rnd), members) in groups {
             let original = UniqueId::new(i, t, rnd);
-            let held_before = before.contains_key(&original);
+            let held_before = before.contains_key(&Uk(original));
             let mut kept = 0;
             for r in &members {
                 let actual = match self.real[d]
@@ -565,17 +625,17 @@ impl World {
                         ))
                     }
                 };
-                if self.real[d].get_unique_id(*r) != Some(actual) {
+                if self.real[d].get_unique_id(*r).map(Uk) != Some(Uk(actual)) {
                     return Err(fail(
                         "c12:get-unique-id",
                         "get_unique_id disagrees with the property".to_string(),
                     ));
                 }
-                if actual == original {
+                if Uk(actual) == Uk(original) {
                     kept += 1;
                 } else {
                     // changed: must be fresh
-                    if self.seen_ids.contains(&actual) || !fresh_now.insert(actual) {
+                    if self.seen_ids.contains(&Uk(actual)) || !fresh_now.insert(Uk(actual)) {
                         return Err(fail(
                             "c12:regenerated-not-fresh",
                             format!("regenerated id {actual} was already in use"),
@@ -625,7 +685,7 @@ impl World {
         let mut seen = HashSet::new();
         for r in self.model[d].live() {
             if let Some(id) = self.real[d].get_unique_id(r) {
-                if !seen.insert(id) {
+                if !seen.insert(Uk(id)) {
                     return Err(fail(
                         "c12:duplicate-in-dom",
                         format!("two instances of one DOM hold UniqueId {id}"),
@@ -750,7 +810,7 @@ impl World {
                 let actual = inst.properties.get(&k.as_str().into());
                 let ok = match (v, actual) {
                     (MVal::Ref(a), Some(Variant::Ref(b))) => a == b,
-                    (MVal::Uid(a), Some(Variant::UniqueId(b))) => a == b,
+                    (MVal::Uid(a), Some(Variant::UniqueId(b))) => Uk(*a) == Uk(*b),
                     _ => false,
                 };
                 if !ok {
@@ -863,7 +923,7 @@ impl World {
                         .specs
                         .iter()
                         .filter_map(|s| s.uid)
-                        .any(|u| before.contains_key(&uid_pool(u)));
+                        .any(|u| before.contains_key(&Uk(uid_pool(u))));
                     ctx.label_if(collided, "uid_collision_on_insert");
                     if collided {
                         ctx.nontrivial();
@@ -942,7 +1002,7 @@ impl World {
                 }
                 ctx.label_if(sub.len() > 1, "transfer_subtree");
                 let collided = sub.iter().any(|x| match self.model[t].nodes[x].props.get("UniqueId") {
-                    Some(MVal::Uid(u)) => before.contains_key(u),
+                    Some(MVal::Uid(u)) => before.contains_key(&Uk(*u)),
                     _ => false,
                 });
                 if collided {
@@ -981,7 +1041,41 @@ impl World {
                 };
                 self.bind_clones(s, t, &snapshot, &[r], &[ret], &before, ctx)?;
             }
-            Op::CloneMulti { src, nodes, dst } => {
+            Op::FailedCloneElsewhere { src, node } => {
+                let s = *src as usize % nd;
+                let live = self.model[s].live();
+                let existing = live[pick(*node, live.len()).unwrap()];
+                let missing = Ref::new();
+                let src_dom = &self.real[s];
+                let r = crate::engine::catch(|| {
+                    let mut scratch = WeakDom::new(InstanceBuilder::new("Folder"));
+                    let _ = src_dom.clone_multiple_into_external(&[existing, missing], &mut scratch);
+                });
+                ctx.label_if(r.is_err(), "clone_of_missing_referent_panicked_elsewhere");
+            }
+            Op::PartialWalk { dom, node, steps } => {
+                let d = *dom as usize % nd;
+                let live = self.model[d].live();
+                let start = live[pick(*node, live.len()).unwrap()];
+                {
+                    let mut it = self.real[d].descendants();
+                    for _ in 0..*steps {
+                        if it.next().is_none() {
+                            break;
+                        }
+                    }
+                }
+                {
+                    let mut it = self.real[d].descendants_of(start);
+                    for _ in 0..(*steps / 2) {
+                        if it.next().is_none() {
+                            break;
+                        }
+                    }
+                }
+                ctx.label("iterator_dropped_part_way");
+            }
+            Op::CloneMulti { src, nodes, dst, overlap } => {
                 if nd < 2 {
                     return Ok(());
                 }
@@ -996,9 +1090,11 @@ impl World {
                 for k in nodes {
                     let Some(i) = pick(*k, live.len()) else { continue };
                     let c = live[i];
-                    if chosen.iter().all(|x| {
-                        !self.model[s].is_ancestor_or_self(*x, c) && !self.model[s].is_ancestor_or_self(c, *x)
-                    }) {
+                    if *overlap
+                        || chosen.iter().all(|x| {
+                            !self.model[s].is_ancestor_or_self(*x, c) && !self.model[s].is_ancestor_or_self(c, *x)
+                        })
+                    {
                         chosen.push(c);
                     }
                 }
@@ -1009,6 +1105,8 @@ impl World {
                     a.clone_multiple_into_external(&chosen, b)
                 };
                 ctx.label_if(chosen.len() >= 2, "clone_multiple_subtrees");
+                let overlapping = (0..chosen.len()).any(|i| (0..chosen.len()).any(|j| i != j && self.model[s].is_ancestor_or_self(chosen[i], chosen[j])));
+                ctx.label_if(overlapping, "clone_multiple_overlapping_referents");
                 self.bind_clones(s, t, &snapshot, &chosen, &rets, &before, ctx)?;
             }
             Op::RawRoundTrip { dom } => {
@@ -1134,7 +1232,7 @@ impl World {
                             Some(MVal::Uid(a)) => *a,
                             other => return Err(fail("c12:id-changed-by-load", format!("{}: UniqueId {u} came back as {other:?}", on.name))),
                         };
-                        let fresh = !self.seen_ids.contains(&actual);
+                        let fresh = !self.seen_ids.contains(&Uk(actual));
                         if holders != 1 || !(actual == *u || fresh) {
                             return Err(fail(
                                 "c12:id-changed-by-load",
@@ -1164,7 +1262,7 @@ impl World {
             Some(MVal::Uid(u)) => Some(*u),
             _ => None,
         }) {
-            self.seen_ids.insert(u);
+            self.seen_ids.insert(Uk(u));
         }
         self.real[d] = decoded;
         self.model[d] = m;
@@ -1184,23 +1282,27 @@ impl World {
         src_snapshot: &MDom,
         originals: &[Ref],
         returned: &[Ref],
-        before: &HashMap<UniqueId, usize>,
+        before: &HashMap<Uk, usize>,
         ctx: &mut CaseCtx,
     ) -> R {
         if originals.len() != returned.len() {
             return Err(fail("c11:return-count", "wrong number of clone roots returned".into()));
         }
-        // map original -> clone by parallel walk
-        let mut map: HashMap<Ref, Ref> = HashMap::new();
-        let mut order: Vec<(Ref, Ref)> = Vec::new();
+        // original -> its clones (a referent listed twice, or listed below another listed one, is
+        // cloned more than once), by parallel walk; every walk keeps its own parent / children links
+        let mut clones_of: HashMap<Ref, Vec<Ref>> = HashMap::new();
+        let mut all_clones: HashSet<Ref> = HashSet::new();
+        // (original, clone, clone of the parent within this subtree, clones of the children)
+        let mut order: Vec<(Ref, Ref, Ref, Vec<Ref>)> = Vec::new();
+        let mut roots_idx: HashSet<usize> = HashSet::new();
         for (o, c) in originals.iter().zip(returned.iter()) {
-            let mut stack = vec![(*o, *c)];
-            while let Some((o, c)) = stack.pop() {
-                if self.all_refs_ever.contains(&c) || map.values().any(|x| *x == c) {
+            roots_idx.insert(order.len());
+            let mut stack = vec![(*o, *c, Ref::none())];
+            while let Some((o, c, pc)) = stack.pop() {
+                if self.all_refs_ever.contains(&c) || !all_clones.insert(c) {
                     return Err(fail("c11:referent-not-fresh", "a clone reuses an existing referent".into()));
                 }
-                map.insert(o, c);
-                order.push((o, c));
+                clones_of.entry(o).or_default().push(c);
                 let Some(inst) = self.real[t].get_by_ref(c) else {
                     return Err(fail("c11:clone-missing", "a cloned instance cannot be looked up in the destination".into()));
                 };
@@ -1211,28 +1313,42 @@ impl World {
                         format!("clone of {} has {} children, original {}", src_snapshot.nodes[&o].name, inst.children().len(), oc.len()),
                     ));
                 }
+                order.push((o, c, pc, inst.children().to_vec()));
                 for (a, b) in oc.iter().zip(inst.children().iter()).rev() {
-                    stack.push((*a, *b));
+                    stack.push((*a, *b, c));
                 }
             }
         }
-        let cloned_set: HashSet<Ref> = map.keys().copied().collect();
+        let cloned_set: HashSet<Ref> = clones_of.keys().copied().collect();
+        let map_one = |r: &Ref| -> Option<Ref> { clones_of.get(r).filter(|v| v.len() == 1).map(|v| v[0]) };
         let mut inside = false;
         let mut outside_kept = false;
         let mut outside_nulled = false;
         // register clones in the model with the documented property values
-        for (i, (o, c)) in order.iter().enumerate() {
+        for (i, (o, c, pc, kids)) in order.iter().enumerate() {
             let on = &src_snapshot.nodes[o];
-            let is_root = originals.contains(o);
+            let is_root = roots_idx.contains(&i);
             let mut props = BTreeMap::new();
             for (k, v) in &on.props {
                 let nv = match v {
                     MVal::Ref(r) => {
                         if r.is_none() {
                             MVal::Ref(*r)
-                        } else if let Some(n) = map.get(r) {
+                        } else if let Some(n) = map_one(r) {
                             inside = true;
-                            MVal::Ref(*n)
+                            MVal::Ref(n)
+                        } else if let Some(many) = clones_of.get(r) {
+                            // the target was cloned several times in this call: any of its copies
+                            inside = true;
+                            match self.real[t].get_by_ref(*c).and_then(|x| x.properties.get(&k.as_str().into())) {
+                                Some(Variant::Ref(got)) if many.contains(got) => MVal::Ref(*got),
+                                other => {
+                                    return Err(fail(
+                                        "c11:ref-rewrite:inside",
+                                        format!("clone of {}: Ref property {k} points at an instance cloned {} times in this call; it is {other:?}, none of the copies", on.name, many.len()),
+                                    ))
+                                }
+                            }
                         } else if self.model[t].nodes.contains_key(r) {
                             outside_kept = true;
                             MVal::Ref(*r)
@@ -1245,10 +1361,9 @@ impl World {
                 };
                 props.insert(k.clone(), nv);
             }
-            let _ = i;
             let node = MNode {
-                parent: if is_root { Ref::none() } else { map[&on.parent] },
-                children: on.children.iter().map(|x| map[x]).collect(),
+                parent: if is_root { Ref::none() } else { *pc },
+                children: kids.clone(),
                 name: on.name.clone(),
                 class: on.class.clone(),
                 props,
@@ -1257,7 +1372,6 @@ impl World {
             self.all_refs_ever.insert(*c);
             self.model[t].nodes.insert(*c, node);
         }
-        let _ = cloned_set;
         if inside {
             ctx.label("clone_ref_inside");
         }
@@ -1271,10 +1385,10 @@ impl World {
             ctx.nontrivial();
         }
         // C11 direct checks (the full diff of check_all would attribute them to C10)
-        for (o, c) in &order {
+        for (i, (o, c, _, _)) in order.iter().enumerate() {
             let inst = self.real[t].get_by_ref(*c).unwrap();
             let mn = &self.model[t].nodes[c];
-            if originals.contains(o) && inst.parent().is_some() {
+            if roots_idx.contains(&i) && inst.parent().is_some() {
                 return Err(fail("c11:clone-root-has-parent", "the root of a clone has a parent".into()));
             }
             if inst.name != mn.name || inst.class.as_str() != mn.class {
@@ -1291,7 +1405,7 @@ impl World {
                             let on = &src_snapshot.nodes[o];
                             let orig = on.props.get(k);
                             let kind = match orig {
-                                Some(MVal::Ref(r)) if map.contains_key(r) => "inside",
+                                Some(MVal::Ref(r)) if clones_of.contains_key(r) => "inside",
                                 Some(MVal::Ref(r)) if self.model[t].nodes.contains_key(r) => "outside-present",
                                 _ => "outside-absent",
                             };
@@ -1317,8 +1431,9 @@ impl World {
             }
         }
         let incoming: Vec<Ref> = order.iter().map(|x| x.1).collect();
+        let _ = &cloned_set;
         let collided = incoming.iter().any(|x| match self.model[t].nodes[x].props.get("UniqueId") {
-            Some(MVal::Uid(u)) => before.contains_key(u),
+            Some(MVal::Uid(u)) => before.contains_key(&Uk(*u)),
             _ => false,
         });
         if collided {
@@ -1423,8 +1538,10 @@ pub fn op(loads: u8) -> BoxedStrategy<Op> {
         3 => (d(), k(), d(), k()).prop_map(|(src, node, dst, dest)| Op::Transfer { src, node, dst, dest }),
         3 => (d(), k()).prop_map(|(dom, node)| Op::CloneWithin { dom, node }),
         3 => (d(), k(), d()).prop_map(|(src, node, dst)| Op::CloneIntoExternal { src, node, dst }),
-        3 => (d(), proptest::collection::vec(k(), 1..4), d()).prop_map(|(src, nodes, dst)| Op::CloneMulti { src, nodes, dst }),
+        3 => (d(), proptest::collection::vec(k(), 1..4), d(), proptest::bool::weighted(0.3)).prop_map(|(src, nodes, dst, overlap)| Op::CloneMulti { src, nodes, dst, overlap }),
         1 => d().prop_map(|dom| Op::RawRoundTrip { dom }),
+        1 => (d(), k()).prop_map(|(src, node)| Op::FailedCloneElsewhere { src, node }),
+        1 => (d(), k(), 0u8..6).prop_map(|(dom, node, steps)| Op::PartialWalk { dom, node, steps }),
     ];
     match loads {
         0 => base.boxed(),
